@@ -16,6 +16,7 @@ them (`online_open_std` holds for an absent `fileTimeSecs`).
 -/
 import IblVerif.Analysis.OpenSizeRounding
 import IblVerif.Analysis.OpenSizeBinary64
+import IblVerif.Lemmas.OpenSizeLifecycle
 
 namespace IblVerif.C11
 open IblVerif.OpenSize
@@ -252,5 +253,209 @@ example : ∃ h', openBin (realArith binary64Rounding) .online (.ofMeta 385 3000
   obtain ⟨h', h1, _, h3⟩ := online_open_std binary64Rounding 385 30000 none 2 8100 (by norm_num)
     (by norm_num) (by norm_num) (by norm_num) (by norm_num) (by norm_num) (by norm_num)
   exact ⟨h', h1, by simpa [framesOnDisk] using h3⟩
+
+/-! ### Round h: steps of `open`, re-opening, growing files, the constructor without meta data
+(model `Model/OpenSizeLifecycle.lean`; the step lists are tied to the source text by `Tie/C11.lean`) -/
+
+/-- [core] **When `open` rewrites the duration, warns, maps** — for every channel count, sample count, item size and
+`self.nbytes`: `fileTimeSecs` is rewritten exactly when the size test fires on a reader that has meta data, whatever
+`ignore_warnings` says; `ignore_warnings` removes the warning and nothing else; the warning of the uncompressed branch never
+subscripts the meta data (whose `fileSizeBytes` / `fileTimeSecs` may be absent); the memory map is the last step. -/
+theorem open_steps_spec (hasMeta iw : Bool) (nc ns itemsize nbytes : Nat) :
+    (Step.setFileTimeSecs ∈ openBinSteps hasMeta iw nc ns itemsize nbytes ↔
+      (nc * ns * itemsize ≠ nbytes ∧ hasMeta = true)) ∧
+    (openBinSteps hasMeta iw nc ns itemsize nbytes).filter (fun s => decide (s ≠ Step.warn false))
+      = openBinSteps hasMeta true nc ns itemsize nbytes ∧
+    Step.warn true ∉ openBinSteps hasMeta iw nc ns itemsize nbytes ∧
+    (openBinSteps hasMeta iw nc ns itemsize nbytes).getLast? = some (Step.memmap nc) := by
+  refine ⟨mem_openBinSteps_set hasMeta iw nc ns itemsize nbytes, ?_, ?_, ?_⟩
+  · unfold openBinSteps
+    by_cases h : nc * ns * itemsize ≠ nbytes ∧ hasMeta = true <;> cases iw <;> simp [h]
+  · unfold openBinSteps
+    by_cases h : nc * ns * itemsize ≠ nbytes ∧ hasMeta = true <;> cases iw <;> simp [h]
+  · unfold openBinSteps
+    simp
+
+/-- [core] **The step model and the value model agree**: when `openBin` returns, the step list exists; without the rewrite
+step the header is returned unchanged, with it the stored duration is the complete frames on disk over the rate — for both
+readers, every arithmetic, every header with meta data, warnings ignored or not. -/
+theorem steps_agree_with_open (A : Arith T) (k : Kind) (nc : Nat) (fs : T) (fts : Option T) (iw : Bool)
+    (itemsize bytes : Nat) (h' : Hdr T)
+    (ho : openBin A k (.ofMeta nc fs fts) itemsize bytes = .ok h') :
+    ∃ l, stepsOf A k (.ofMeta nc fs fts) iw itemsize bytes bytes = some l ∧
+      (Step.setFileTimeSecs ∉ l → h' = .ofMeta nc fs fts) ∧
+      (Step.setFileTimeSecs ∈ l →
+        h'.fileTimeSecs? = some (A.div (A.ofNat (framesOnDisk bytes nc itemsize)) fs)) := by
+  unfold openBin at ho
+  cases hns : nsOf A k (.ofMeta nc fs fts) itemsize bytes with
+  | error e => simp [hns, bind, Except.bind] at ho
+  | ok ns =>
+    refine ⟨openBinSteps true iw nc ns itemsize bytes, by simp [stepsOf, hns, Hdr.nc], ?_, ?_⟩
+    · intro hno
+      have hc : nc * ns * itemsize = bytes := by
+        have := (mem_openBinSteps_set true iw nc ns itemsize bytes).not.mp hno
+        simpa using this
+      simp only [hns, bind, Except.bind, Hdr.nc, hc, ne_eq, not_true_eq_false, if_false] at ho
+      cases hm : memmap bytes ns nc itemsize with
+      | error e => simp [hm, pure, Except.pure] at ho
+      | ok u => simp [hm, pure, Except.pure] at ho; exact ho.symm
+    · intro hyes
+      have hc : nc * ns * itemsize ≠ bytes :=
+        ((mem_openBinSteps_set true iw nc ns itemsize bytes).mp hyes).1
+      simp only [hns, bind, Except.bind, Hdr.nc, Hdr.fs, ne_eq, hc, not_false_eq_true, if_true] at ho
+      by_cases hz : itemsize * nc = 0
+      · simp [hz] at ho
+      · by_cases hf : A.isZero fs = true
+        · simp [hz, hf] at ho
+        · simp only [hz, hf, if_false, Hdr.setFileTimeSecs] at ho
+          cases hn2 : nsOf A k (.ofMeta nc fs (some (A.div (A.ofNat (framesOnDisk bytes nc itemsize)) fs)))
+              itemsize bytes with
+          | error e => simp [hn2] at ho
+          | ok ns2 =>
+            simp only [hn2] at ho
+            cases hm : memmap bytes ns2 nc itemsize with
+            | error e => simp [hm, Hdr.nc, pure, Except.pure] at ho
+            | ok u =>
+              simp [hm, Hdr.nc, pure, Except.pure] at ho
+              rw [← ho]; rfl
+
+/-- [core] **Re-opening after `close` exposes the same frames** (offline reader): the second `open` of the same object on
+the unchanged file returns the header of the first and the sample count is still the complete frames on disk. -/
+theorem reopen_same_offline (A : Arith T) (nc : Nat) (fs fts : T) (itemsize bytes : Nat)
+    (hnc : 0 < nc) (hsz : 0 < itemsize) (hb : 0 < bytes) (hfs : A.isZero fs = false)
+    (hrt : RoundTrip A fs (framesOnDisk bytes nc itemsize)) :
+    ∃ h', openBin A .offline (.ofMeta nc fs (some fts)) itemsize bytes = .ok h' ∧
+      reopen A .offline (.ofMeta nc fs (some fts)) itemsize bytes bytes = .ok h' ∧
+      nsOf A .offline h' itemsize bytes = .ok (framesOnDisk bytes nc itemsize) := by
+  obtain ⟨fts', h1, h2, hns⟩ := openBin_offline_idem A nc fs fts itemsize bytes hnc hsz hb hfs hrt
+  refine ⟨_, h1, ?_, by simp [nsOf, Hdr.nsOffline, hns]⟩
+  simp [reopen, h1, openBinAt_self, h2, bind, Except.bind]
+
+/-- `reopen_same_offline` in the standard model of rounding. -/
+theorem reopen_same_offline_std (F : StdRounding) (nc : Nat) (fs fts : ℝ) (itemsize bytes : Nat)
+    (hnc : 0 < nc) (hsz : 0 < itemsize) (hb : 0 < bytes) (hfs : 0 < fs)
+    (hk : framesOnDisk bytes nc itemsize < 2 ^ 50) :
+    ∃ h', openBin (realArith F) .offline (.ofMeta nc fs (some fts)) itemsize bytes = .ok h' ∧
+      reopen (realArith F) .offline (.ofMeta nc fs (some fts)) itemsize bytes bytes = .ok h' ∧
+      nsOf (realArith F) .offline h' itemsize bytes = .ok (framesOnDisk bytes nc itemsize) :=
+  reopen_same_offline (realArith F) nc fs fts itemsize bytes hnc hsz hb (by simp [realArith, hfs.ne'])
+    (roundtrip_real F _ hk fs hfs)
+
+/-- [core] **A file that grows between two opens of an `OnlineReader`** (recording in progress): the re-opened object
+exposes exactly the complete frames of the file as it is now — at least as many as before, `m` more for `m` more complete
+frames — whatever `self.nbytes` it remembers from its construction. -/
+theorem online_reopen_grown (A : Arith T) (nc : Nat) (fs : T) (fts : Option T) (itemsize b0 b1 : Nat)
+    (hnc : 0 < nc) (hsz : 0 < itemsize) (hb0 : 0 < b0) (hle : b0 ≤ b1) (hfs : A.isZero fs = false)
+    (hon0 : OnlineFloor A nc itemsize b0) (hon1 : OnlineFloor A nc itemsize b1) :
+    ∃ h', reopen A .online (.ofMeta nc fs fts) itemsize b0 b1 = .ok h' ∧ h'.nc = nc ∧
+      nsOf A .online h' itemsize b1 = .ok (framesOnDisk b1 nc itemsize) ∧
+      framesOnDisk b0 nc itemsize ≤ framesOnDisk b1 nc itemsize ∧
+      ∀ m, b1 = b0 + m * (itemsize * nc) → framesOnDisk b1 nc itemsize = framesOnDisk b0 nc itemsize + m := by
+  obtain ⟨f0, h0, _, _⟩ := openBin_online_meta A nc fs fts itemsize b0 hnc hsz hb0 hfs hon0
+  obtain ⟨f1, h1, hns1, _⟩ := openBinAt_online_meta A nc fs f0 itemsize b0 b1 hnc hsz (by omega) hfs hon1
+  refine ⟨_, by simp [reopen, h0, h1, bind, Except.bind], rfl, hns1, frames_mono b0 b1 nc itemsize hle, ?_⟩
+  intro m hm
+  rw [hm]; exact frames_add_mul b0 m nc itemsize hnc hsz
+
+/-- `online_reopen_grown` in the standard model: every file below 2⁴⁰ bytes. -/
+theorem online_reopen_grown_std (F : StdRounding) (nc : Nat) (fs : ℝ) (fts : Option ℝ) (itemsize b0 b1 : Nat)
+    (hnc : 0 < nc) (hsz : 0 < itemsize) (hb0 : 0 < b0) (hle : b0 ≤ b1) (hfs : 0 < fs)
+    (hb1 : b1 < 2 ^ 40) (hncb : nc < 2 ^ 40) (hszb : itemsize < 2 ^ 40) :
+    ∃ h', reopen (realArith F) .online (.ofMeta nc fs fts) itemsize b0 b1 = .ok h' ∧ h'.nc = nc ∧
+      nsOf (realArith F) .online h' itemsize b1 = .ok (framesOnDisk b1 nc itemsize) ∧
+      framesOnDisk b0 nc itemsize ≤ framesOnDisk b1 nc itemsize := by
+  obtain ⟨h', h1, h2, h3, h4, _⟩ := online_reopen_grown (realArith F) nc fs fts itemsize b0 b1 hnc hsz hb0 hle
+    (by simp [realArith, hfs.ne'])
+    (online_floor_real F nc itemsize b0 hnc hsz (by omega) hncb hszb)
+    (online_floor_real F nc itemsize b1 hnc hsz hb1 hncb hszb)
+  exact ⟨h', h1, h2, h3, h4⟩
+
+/-- [core] **Appending never changes what was already exposed**: the frames that were complete before the file grew keep
+their values (the view of the longer file restricted to the old row count is the old view). -/
+theorem grown_prefix_stable (file extra : List Int) (bytes nc itemsize : Nat) (hsz : 0 < itemsize)
+    (hfile : file.length = bytes / itemsize) :
+    exposed (file ++ extra) (framesOnDisk bytes nc itemsize) nc = exposed file (framesOnDisk bytes nc itemsize) nc := by
+  apply exposed_append
+  rw [hfile, Nat.le_div_iff_mul_le hsz]
+  exact frames_mul_le bytes nc itemsize
+
+/-- **Finding (candidate known finding `offline-reopen-stale-size`, offline reader only)**: `self.nbytes` is read once in
+`__init__`.  An offline `Reader` object that agreed with its file when constructed and is re-opened after the file has grown
+keeps its header: it still exposes the OLD number of frames, for every growth — the full-strength "every open exposes the
+frames physically present" is false for a re-opened offline object (a NEW `Reader`, and the `OnlineReader`, are right). -/
+theorem offline_reopen_stale_counterexample (A : Arith T) (nc : Nat) (fs fts : T) (itemsize b0 b1 : Nat)
+    (hc : nc * A.rint (A.mul fts fs) * itemsize = b0) (hb0 : 0 < b0) (hle : b0 ≤ b1) :
+    ∃ h', reopen A .offline (.ofMeta nc fs (some fts)) itemsize b0 b1 = .ok h' ∧
+      nsOf A .offline h' itemsize b1 = .ok (A.rint (A.mul fts fs)) :=
+  ⟨_, reopen_offline_stale A nc fs fts itemsize b0 b1 hc hb0 hle, by simp [nsOf, Hdr.nsOffline]⟩
+
+/-- Non-vacuity, exact arithmetic: 4 frames of 3 int16 channels announced and present (24 bytes); the file grows to 6
+frames (36 bytes); the re-opened offline object still says 4, the file holds 6. -/
+example : (∃ h', reopen (realArith exactRounding) .offline (.ofMeta 3 30000 (some (4 / 30000))) 2 24 36 = .ok h' ∧
+    nsOf (realArith exactRounding) .offline h' 2 36 = .ok 4) ∧ framesOnDisk 36 3 2 = 6 := by
+  have h4 : (realArith exactRounding).rint ((realArith exactRounding).mul (4 / 30000) 30000) = 4 := by
+    simp [realArith, exactRounding]
+  refine ⟨?_, by decide⟩
+  have := offline_reopen_stale_counterexample (realArith exactRounding) 3 30000 (4 / 30000) 2 24 36
+    (by rw [h4]) (by norm_num) (by norm_num)
+  rw [h4] at this
+  exact this
+
+/-- [core] **Constructor without meta data, size a multiple of 768 bytes**: 384 channels, no sync channel, `size/768`
+samples at 30 kHz are inferred; they reproduce the file size exactly, `open` maps the whole file without touching anything
+and the sample count is the complete frames on disk. -/
+theorem nometa_768 (A : Arith T) (size : Nat) (h : size % 768 = 0) (hpos : 0 < size) :
+    inferFlat size ⟨none, none, none, none⟩ = .ok ⟨384, size / 768, 30000, 0⟩ ∧
+    384 * (size / 768) * 2 = size ∧
+    framesOnDisk size 384 2 = size / 768 ∧
+    openBin A .offline (FlatHdr.toHdr ⟨384, size / 768, 30000, 0⟩) 2 size = .ok (.flat 384 (size / 768) 30000) := by
+  have hsz : 384 * (size / 768) * 2 = size := by omega
+  refine ⟨inferFlat_768 size h hpos, hsz, by unfold framesOnDisk; omega, ?_⟩
+  have hm : memmap size (size / 768) 384 2 = .ok () := memmap_ok _ _ _ _ hpos (by omega)
+  simp [openBin, FlatHdr.toHdr, nsOf, Hdr.nsOffline, Hdr.nc, hsz, hm, bind, Except.bind, pure, Except.pure]
+
+/-- [core] **… a multiple of 770 bytes but not of 768**: 385 channels, one sync channel, `size/770` samples. -/
+theorem nometa_770 (A : Arith T) (size : Nat) (h8 : size % 768 ≠ 0) (h : size % 770 = 0) :
+    inferFlat size ⟨none, none, none, none⟩ = .ok ⟨385, size / 770, 30000, 1⟩ ∧
+    385 * (size / 770) * 2 = size ∧
+    framesOnDisk size 385 2 = size / 770 ∧
+    openBin A .offline (FlatHdr.toHdr ⟨385, size / 770, 30000, 1⟩) 2 size = .ok (.flat 385 (size / 770) 30000) := by
+  have hsz : 385 * (size / 770) * 2 = size := by omega
+  have hpos : 0 < size := by omega
+  refine ⟨inferFlat_770 size h8 h, hsz, by unfold framesOnDisk; omega, ?_⟩
+  have hm : memmap size (size / 770) 385 2 = .ok () := memmap_ok _ _ _ _ hpos (by omega)
+  simp [openBin, FlatHdr.toHdr, nsOf, Hdr.nsOffline, Hdr.nc, hsz, hm, bind, Except.bind, pure, Except.pure]
+
+/-- **A multiple of both** (every multiple of 295 680 = 770·384 = 768·385 bytes, e.g. a 385-channel recording of 384·m
+samples): the 384 branch is tested first and wins — the file is read as 384 channels × 385·m samples without a sync channel.
+The exposed frames still cover the file exactly; the channel count is not recoverable from the size alone. -/
+theorem nometa_both_384_wins (size : Nat) (hpos : 0 < size) :
+    (size % 768 = 0 ∧ size % 770 = 0 ↔ size % 295680 = 0) ∧
+    (size % 295680 = 0 → inferFlat size ⟨none, none, none, none⟩ = .ok ⟨384, size / 768, 30000, 0⟩) := by
+  refine ⟨by omega, fun h => inferFlat_768 size (by omega) hpos⟩
+
+/-- Neither: the constructor refuses (`AssertionError`: channel count and rate have to be given). -/
+theorem nometa_neither (size : Nat) (h8 : size % 768 ≠ 0) (h : size % 770 ≠ 0) :
+    inferFlat size ⟨none, none, none, none⟩ = .error .assertion :=
+  inferFlat_neither size h8 h
+
+/-- Non-vacuity: 5 frames of 384 channels; 5 frames of 385 channels; 384 frames of 385 channels read as 385 × 384; 7 bytes. -/
+example : inferFlat 3840 ⟨none, none, none, none⟩ = .ok ⟨384, 5, 30000, 0⟩ ∧
+    inferFlat 3850 ⟨none, none, none, none⟩ = .ok ⟨385, 5, 30000, 1⟩ ∧
+    inferFlat (384 * 385 * 2) ⟨none, none, none, none⟩ = .ok ⟨384, 385, 30000, 0⟩ ∧
+    inferFlat 7 ⟨none, none, none, none⟩ = .error .assertion := by decide
+
+/-- Non-vacuity of the growth theorem (53-bit rounding): 10 frames + 400 bytes of a 385-channel file grow by 1200 bytes. -/
+example : ∃ h', reopen (realArith binary64Rounding) .online (.ofMeta 385 30000 none) 2 8100 9300 = .ok h' ∧
+    nsOf (realArith binary64Rounding) .online h' 2 9300 = .ok 12 := by
+  obtain ⟨h', h1, _, h3, _⟩ := online_reopen_grown_std binary64Rounding 385 30000 none 2 8100 9300 (by norm_num)
+    (by norm_num) (by norm_num) (by norm_num) (by norm_num) (by norm_num) (by norm_num) (by norm_num)
+  exact ⟨h', h1, by simpa [framesOnDisk] using h3⟩
+
+/-- Steps of a truncated file with meta data, warnings on / ignored; of a consistent one; of a flat reader. -/
+example : openBinSteps true false 385 5 2 (770 * 5 + 769) = [.warn false, .setFileTimeSecs, .memmap 385] ∧
+    openBinSteps true true 385 5 2 (770 * 5 + 769) = [.setFileTimeSecs, .memmap 385] ∧
+    openBinSteps true false 385 5 2 (770 * 5) = [.memmap 385] ∧
+    openBinSteps false false 385 5 2 (770 * 5 + 769) = [.memmap 385] := by decide
 
 end IblVerif.C11
